@@ -40,6 +40,7 @@ void VH_FN(std::map<std::string, std::vector<tr::Segment>>& out) {
     out["c07"].push_back(tr::c07EnumSegment<F>(2));
 #endif
     out["c13"].push_back(tr::c13Segment<F>(60, 6000));
+    out["c13"].push_back(tr::c13TsmSegment<F>(20, 2000));
     out["c16"].push_back(tr::c16Segment<F>(60, 6000));
     out["c17"].push_back(tr::c17Segment<F>(60, 6000));
 }
